@@ -99,6 +99,10 @@ Expired(c, t) == c.lastOk # 0 /\ t - c.lastOk > c.iv.e.n
 Purge(c) == [c EXCEPT !.my = {}, !.needSess = TRUE, !.serial = "0", !.lastOk = 0, !.ack = None, !.expired = TRUE]
 PurgeIfExpired(c, t) == IF Expired(c, t) THEN Purge(c) ELSE c
 WaitTimeout(c, t) == IF c.lastOk + c.iv.r.n > t THEN c.lastOk + c.iv.r.n - t ELSE 0
+(* all transport receive calls made for one header (or one body) share one deadline: timeout + time of the call is constant *)
+CallsOK(cs) == \A i, j \in 1..Len(cs) :
+                 ((cs[i].off < 8) = (cs[j].off < 8) /\ cs[i].to < 1073741824 /\ cs[j].to < 1073741824)
+                   => cs[i].to + cs[i].now = cs[j].to + cs[j].now
 WaitOK(c, to) == IF c.iv.r.n >= 1073741824 THEN to >= 536870912 ELSE to = WaitTimeout(c, c.now)   \* saturated values
 ObsPoint(e) == Has(e, "my") /\ (e.e \in {"open", "stop", "sleep"} \/ (e.e = "send" /\ e.t \in {"reset_query", "serial_query"}))
 
@@ -221,7 +225,8 @@ HRecv(cin, e) ==
       c0 == [c EXCEPT !.now = e.now, !.ver = NewVer(f, c.ver, c.firstPdu),
                       !.firstPdu = IF cls \in {"short", "big"} THEN c.firstPdu ELSE FALSE]
       envbad == Chk({<<"ENV", c.pc \in {"resp1", "resp", "est"}>>, <<"C14", c.owed = None>>,
-                     <<"C17", (c.pc = "est" /\ Has(e, "to")) => WaitOK(c, e.to)>>})
+                     <<"C17", (c.pc = "est" /\ Has(e, "to")) => WaitOK(c, e.to)>>,
+                     <<"C17", Has(e, "calls") => CallsOK(e.calls)>>})
   IN IF cls # "ok" /\ f.t = "error"
      THEN Res([Fail(c0, {0}, f.raw) EXCEPT !.owed = None], envbad)                 \* a malformed Error Report is never answered
      ELSE IF cls \in {"short", "big"} THEN Res(Fail(c0, {0}, Hdr(f.raw)), envbad)      \* Dev_TooBigReportedAsCorruptData
@@ -257,7 +262,8 @@ HRFault(cin, e) ==
                       !.firstPdu = IF hdrSeen THEN FALSE ELSE c.firstPdu]
       envbad == Chk({<<"ENV", c.pc \in {"resp1", "resp", "est", "reported"}>>,
                      <<"C14", c.owed = None>>,
-                     <<"C17", (c.pc = "est" /\ e.at = "hdr" /\ ~Has(e, "off")) => WaitOK(c, e.to)>>})
+                     <<"C17", (c.pc = "est" /\ e.at = "hdr" /\ ~Has(e, "off")) => WaitOK(c, e.to)>>,
+                     <<"C17", Has(e, "calls") => CallsOK(e.calls)>>})
   IN IF k = "intr"
      THEN Res(IF c.pc = "resp" THEN [c0 EXCEPT !.pc = "resp1", !.buf = <<>>] ELSE c0, envbad)   \* Dev_InterruptedReceiveRestartsSync
      ELSE IF k = "timeout" /\ c.pc = "est" THEN Res([c0 EXCEPT !.pc = "poll"], envbad)
